@@ -150,7 +150,7 @@ func c05Compose(p []kv) string {
 }
 
 func checkC05(c *ev.Ctx) {
-	c.Rule("encoder: complete product 2^4 flags x touch{-1..4} x usage{0,1,2} x ver{0,1,2,65535} x 6 principal lists x jointly varied 5-value string alphabet, plus 6 literal-escape / control-character strings in each string field of the generating set; decoder: single-field surgeries (delete, 3 case renames, duplicate before/after, retype to null/number/string/array/object/bool-flip) and double surgeries (one field deleted/renamed AND another duplicated or an unknown key added) and structural relocations (a field moved from the top level into a nested object / array / two levels / JSON-in-a-string under an unknown or known key, with and without a top-level copy) on every field of a generating set of encoder outputs, all flag/touch/ver combinations as texts, a JSON value catalogue, every ordered pair (and triples) of a 17-text set decoded back to back (history independence), byte-substitution neighbourhood of an encoder output, and ALL strings up to length 5 (thorough 6) over a 13-symbol structural alphabet. non-trivial = Marshal succeeded (round-trip checked) or Unmarshal accepted (oracle checked); distinct by text")
+	c.Rule("encoder: complete product 2^4 flags x touch{-1..4} x usage{0,1,2} x ver{0,1,2,65535} x 6 principal lists x jointly varied 5-value string alphabet, plus 6 literal-escape / control-character strings in each string field of the generating set; decoder: single-field surgeries (delete, 3 case renames, duplicate before/after, retype to null/number/string/array/object/bool-flip) and double surgeries (one field deleted/renamed AND another duplicated or an unknown key added) and structural relocations (a field moved from the top level into a nested object / array / two levels / JSON-in-a-string under an unknown or known key, with and without a top-level copy; a field deleted while another field's string value spells its name) on every field of a generating set of encoder outputs, all flag/touch/ver combinations as texts, a JSON value catalogue, every ordered pair (and triples) of a 17-text set decoded back to back (history independence), byte-substitution neighbourhood of an encoder output, and ALL strings up to length 5 (thorough 6) over a 13-symbol structural alphabet. non-trivial = Marshal succeeded (round-trip checked) or Unmarshal accepted (oracle checked); distinct by text")
 	c.Assume("valid UTF-8 strings only (encoding/json replaces invalid UTF-8, which the property excludes)", "the independent decode uses encoding/json into map[string]RawMessage")
 	if c.ReplayCase != nil {
 		var k c05Case
@@ -362,6 +362,32 @@ func checkC05(c *ev.Ctx) {
 						nest++
 					}
 				}
+			}
+		}
+		// a field is deleted while a top-level STRING VALUE (or a principal) spells its name: member names and string
+		// values must not be confused
+		for i := range base {
+			for j := range base {
+				if i == j || !strings.HasPrefix(base[j].v, "\"") && base[j].k != "prins" {
+					continue
+				}
+				var q []kv
+				for x, e := range base {
+					if x == i {
+						continue
+					}
+					if x == j {
+						nb, _ := json.Marshal(base[i].k)
+						if e.k == "prins" {
+							e.v = "[" + string(nb) + "]"
+						} else {
+							e.v = string(nb)
+						}
+					}
+					q = append(q, e)
+				}
+				c05Dec(c, c05Compose(q), fmt.Sprintf("relocation: %s deleted, value of %s spells its name", base[i].k, base[j].k))
+				nest++
 			}
 		}
 		// everything but the version nested
